@@ -16,6 +16,11 @@ def harnesses(ctx):
                 "arbitrary earlier history (any mode, any earlier request, a mode change before and after it), then {request r; mode m} in either order or alone; all 3 modes x all 1024 requests each",
                 kernel="C10-b the loaded field set after any mode/request history contains what a fresh tokenizer with the same mode and request loads, plus at most stale split fields",
                 assumptions=["a fresh tokenizer = create(mode); set_mode(mode); set_subset(request) (what the Python/CLI front ends do)"], timeout_s=900, mem_gb=12),
+        Harness("c10_buffer_reuse", "input_text__buffer__mod", ["InputBuffer::reset", "InputBuffer::start_build", "InputBuffer::refresh_chars", "InputBuffer::build",
+                                                                "InputBuffer::current_chars", "InputBuffer::to_orig_byte_idx", "InputBuffer::to_orig_char_idx"],
+                "every table of the buffer holds arbitrary junk of an earlier, longer analysis (any state); next text \"a\u3042\"; compared field by field with a fresh buffer",
+                kernel="C10-c input buffer reuse: reset + start_build + refresh_chars + build on a used buffer = the same on a fresh one (also what plugins see between start_build and build)",
+                timeout_s=1500, mem_gb=20, assumptions=["concrete 2-character next text; junk contents symbolic, junk lengths concrete"]),
     ] + [
         Harness("c10_lattice_reset_" + nm, "analysis__lattice", ["Lattice::reset", "Lattice::reset_vec", "Lattice::connect_bos", "Lattice::has_previous_node", "Lattice::fill_top_path"],
                 "arbitrary content of a %d-character lattice (2 arbitrary nodes per boundary, end-of-sentence set or not), next sentence of %d characters" % (prev, n),
@@ -27,7 +32,7 @@ def harnesses(ctx):
 
 
 OUTSIDE = ["the OOV scratch vector, result-list swapping, the Python scope guard", "failed analyses end to end (input too long, EosBosDisconnect)",
-           "InputBuffer::reset followed by a rebuild (attempted in the thorough tier only)"]
+           "input-text plugins themselves (only the buffer state they read is compared)"]
 EXPLANATION = "Inductive steps over arbitrary earlier state: lattice reset, and the mode/field-request state machine compared with a fresh tokenizer (relational, both sides real code)."
 MANIFEST = dict(
     design_ref="DESIGN.md §4 C10",
